@@ -833,15 +833,20 @@ func ruleMapPositional(c *Ctx, r *R) {
 		iP := cb.Params[len(cb.Params)-1]
 		inIdx, outIdx := false, false
 		bad := ""
-		instrs(cb, func(b *ssa.BasicBlock, i int, in ssa.Instruction) {
-			ia, ok := in.(*ssa.IndexAddr)
+		for _, di := range deepInstrs(cb, 2) { // the element access may sit in a helper (mapAt(in, out, i, f))
+			ia, ok := di.in.(*ssa.IndexAddr)
 			if !ok {
-				return
+				continue
 			}
-			base := path(ia.X)
-			if ia.Index != ssa.Value(iP) {
+			if len(di.calls) > 0 {
+				if cal := staticCallee(&di.calls[0].Call); cal == nil || rootFn(origin(cal)).Pkg != rootFn(cb).Pkg {
+					continue
+				}
+			}
+			base := path(argOf(ia.X, di.calls))
+			if resolveVal(argOf(ia.Index, di.calls)) != ssa.Value(iP) {
 				bad = base + " is indexed by " + path(ia.Index) + " instead of " + iP.Name()
-				return
+				continue
 			}
 			if strings.HasSuffix(base, "in") {
 				inIdx = true
@@ -854,7 +859,7 @@ func ruleMapPositional(c *Ctx, r *R) {
 					}
 				}
 			}
-		})
+		}
 		r.ok(inIdx && outIdx && bad == "", name+"|positional", cb.Pos(), "result i must be f(in[i]) stored at out[i] with the callback's own index parameter: "+bad)
 		// out := make([]U, len(in)) and n = len(in)
 		okLen := false
